@@ -1,3 +1,71 @@
 package main
 
-func runMultiSite(env *cliEnv, c J, emit func(J)) {}
+// C15: run one multi-site command of the gts binary on a generated record
+// and log the parsed input and the parsed output records.
+
+import (
+	"io/ioutil"
+	"os"
+	"path/filepath"
+)
+
+func runMultiSite(env *cliEnv, c J, emit func(J)) {
+	id := asStr(c["id"])
+	dir, err := ioutil.TempDir("", "verif-ms-")
+	if err != nil {
+		panic(err)
+	}
+	defer os.RemoveAll(dir)
+	rec := c["rec"].(map[string]interface{})
+	seq := makeSeq(rec)
+	text, perr := writeGenBank(seq)
+	ev := J{"ev": "cli", "case": id, "cmd": c["cmd"], "opts": c["opts"], "loc": c["loc"], "locstr": c["locstr"],
+		"guest": c["guest"], "status": -1, "stderr": "", "parseerr": "", "pre": emptyState(), "outs": []interface{}{}}
+	if perr != nil {
+		ev["parseerr"] = "cannot write the input record"
+		emit(ev)
+		return
+	}
+	// the record as the command will see it
+	pre, errs, pp := scanAll(text)
+	if pp != nil || errs != "" || len(pre) != 1 {
+		ev["parseerr"] = "generated input not readable: " + errs
+		emit(ev)
+		return
+	}
+	ev["pre"] = observe(pre[0], false)
+	inName := "in-" + id
+	ioutil.WriteFile(filepath.Join(env.inputs, inName), []byte(text), 0644)
+	defer os.Remove(filepath.Join(env.inputs, inName))
+	args := append([]string{}, strList(c["opts"])...)
+	args = append(args, asStr(c["locstr"]))
+	if asStr(c["cmd"]) == "insert" {
+		args = append(args, "@"+string(intsToBytes(c["guest"])))
+	}
+	res := env.run(dir, asStr(c["cmd"]), args, inName, "stdout", true, 0)
+	ev["status"] = res.status
+	se := res.stderr
+	if len(se) > 160 {
+		se = se[:160]
+	}
+	ev["stderr"] = se
+	if res.status == 0 {
+		outs, oerrs, op := scanAll(string(res.out))
+		if op != nil {
+			ev["parseerr"] = "panic while reading the output"
+		} else if oerrs != "" {
+			ev["parseerr"] = oerrs
+		}
+		list := make([]interface{}, 0, len(outs))
+		for _, o := range outs {
+			st, operr := observeSafe(o, false)
+			if operr != nil {
+				ev["parseerr"] = "cannot observe output"
+				break
+			}
+			list = append(list, st)
+		}
+		ev["outs"] = list
+	}
+	emit(ev)
+}
